@@ -110,5 +110,62 @@ PROPS = {
                         "class of accepted encodings (in_class): lengths < 2^32, singular wantlist field at most once, 32-bit scalars within range; "
                         "quick-protobuf silently truncates outside it"],
     },
+    "C03": {
+        "engines": [{"name": "client", "n": {"quick": 600, "thorough": 30000}, "profiles": ["debug"], "oracle": "oracle_C03", "shard": 15}],
+        "rule": """engine client: the client half of Behaviour driven op by op (get incl. unconvertible CIDs, cancel of issued and foreign ids, connections opened/closed (via ConnectionClosed and via ClientClosingConnection), incoming client messages with presences and blocks, sending-state reports (protocol-conforming, late, from other connections), release of scripted blockstore get/put calls with hit / miss / failure in any order, virtual-clock advances around 1 s / 5 s / 30 s, ClientBehaviour::poll to Pending, get_new_blocks) over 1-3 peers x <= 3 connections x 2-4 CIDs; after every op the outputs and a full snapshot of the client state are compared with the model. The oracles are folds over the op history and the implementation's outputs/snapshots only. Every history is non-trivial; distinct = distinct op lists.""",
+        "assumptions": ["u64 next_query_id / revision overflow ignored (2^64 calls)", "hash-map iteration order taken as an input (connection choice) or compared as multisets",
+                        "a cancel after the answer reached the node (its event is already queued) does not retract the event: the property speaks of queries cancelled before"],
+    },
+    "C01": {
+        "engines": [{"name": "incoming", "n": {"quick": 2000, "thorough": 60000}, "profiles": ["debug"], "oracle": "oracle"},
+                    {"name": "client", "n": {"quick": 500, "thorough": 30000}, "profiles": ["debug"], "oracle": "oracle_C01", "shard": 15}],
+        "rule": "engine incoming: see C16 (every accepted block must be keyed by the CID rebuilt from its prefix and the table's digest of its bytes). engine client: the client half of Behaviour driven op by op (get incl. unconvertible CIDs, cancel of issued and foreign ids, connections opened/closed (via ConnectionClosed and via ClientClosingConnection), incoming client messages with presences and blocks, sending-state reports (protocol-conforming, late, from other connections), release of scripted blockstore get/put calls with hit / miss / failure in any order, virtual-clock advances around 1 s / 5 s / 30 s, ClientBehaviour::poll to Pending, get_new_blocks) over 1-3 peers x <= 3 connections x 2-4 CIDs; after every op the outputs and a full snapshot of the client state are compared with the model. The oracles are folds over the op history and the implementation's outputs/snapshots only. Every history is non-trivial; distinct = distinct op lists.",
+        "assumptions": ["A-HASH: the hash oracle of the model is the table of answers the harness obtained from the real MultihasherTable",
+                        "the hand-over of stored blocks to the server half (lib.rs poll) is exercised by the node-level engine of C02 when present; here get_new_blocks is observed directly"],
+    },
+    "C17": {
+        "engines": [{"name": "wantlist", "n": {"quick": 1200, "thorough": 60000}, "profiles": ["debug"], "oracle": "oracle_C17", "shard": 300}],
+        "tie_lemmas": ["tie_wl_full_table", "tie_wl_update_table", "tie_wl_update_wildcard", "tie_entry_constructors", "tie_default_send_dont_have"],
+        "rule": """engine wantlist: raw API histories on one Wantlist + one WantlistState: every sequence of <= 4 (quick) / 5 (thorough) client-level events over 1 CID and <= 3 / 4 over 2 CIDs ({insert(+wanted_again), remove, have, dont_have, block-from-peer, gen-update, gen-full}), random histories up to length 80 over 2-4 CIDs (2/3 following the client's discipline, 1/3 arbitrary API calls, correspondence only), both values of send_dont_have; generated entries are compared as sets of full protobuf Entry values. Non-trivial = more than one event.""",
+        "assumptions": ["the builder option reaches the wantlist unchanged: exercised by the client engine (both settings) under C04/C03"],
+    },
+    "C04": {
+        "engines": [{"name": "wantlist", "n": {"quick": 1200, "thorough": 60000}, "profiles": ["debug"], "oracle": "oracle_C04", "shard": 300, "count": ["is_disciplined"]},
+                    {"name": "client", "n": {"quick": 500, "thorough": 30000}, "profiles": ["debug"], "oracle": "oracle_C04", "shard": 15}],
+        "tie_lemmas": ["tie_wl_full_table", "tie_wl_update_table", "tie_wl_update_wildcard", "tie_entry_constructors"],
+        "rule": """engine wantlist: raw API histories on one Wantlist + one WantlistState: every sequence of <= 4 (quick) / 5 (thorough) client-level events over 1 CID and <= 3 / 4 over 2 CIDs ({insert(+wanted_again), remove, have, dont_have, block-from-peer, gen-update, gen-full}), random histories up to length 80 over 2-4 CIDs (2/3 following the client's discipline, 1/3 arbitrary API calls, correspondence only), both values of send_dont_have; generated entries are compared as sets of full protobuf Entry values. Non-trivial = more than one event. engine client: the client half of Behaviour driven op by op (get incl. unconvertible CIDs, cancel of issued and foreign ids, connections opened/closed (via ConnectionClosed and via ClientClosingConnection), incoming client messages with presences and blocks, sending-state reports (protocol-conforming, late, from other connections), release of scripted blockstore get/put calls with hit / miss / failure in any order, virtual-clock advances around 1 s / 5 s / 30 s, ClientBehaviour::poll to Pending, get_new_blocks) over 1-3 peers x <= 3 connections x 2-4 CIDs; after every op the outputs and a full snapshot of the client state are compared with the model. The oracles are folds over the op history and the implementation's outputs/snapshots only. Every history is non-trivial; distinct = distinct op lists.""",
+        "assumptions": ["'solicited' is read with the refinement that wanted_again forces (C04_full_exact_refuted / _partial): a CID wanted anew after this peer delivered it has to be told again",
+                        "a generated wantlist is taken as delivered; when that is in doubt the next one is full (C05) and overwrites the view"],
+    },
+    "C15": {
+        "engines": [{"name": "client", "n": {"quick": 500, "thorough": 30000}, "profiles": ["debug"], "oracle": "oracle_C15", "shard": 15},
+                    {"name": "server", "n": {"quick": 100, "thorough": 4000}, "profiles": ["debug"], "oracle": "oracle_C13", "shard": 20}],
+        "rule": """engine client: the client half of Behaviour driven op by op (get incl. unconvertible CIDs, cancel of issued and foreign ids, connections opened/closed (via ConnectionClosed and via ClientClosingConnection), incoming client messages with presences and blocks, sending-state reports (protocol-conforming, late, from other connections), release of scripted blockstore get/put calls with hit / miss / failure in any order, virtual-clock advances around 1 s / 5 s / 30 s, ClientBehaviour::poll to Pending, get_new_blocks) over 1-3 peers x <= 3 connections x 2-4 CIDs; after every op the outputs and a full snapshot of the client state are compared with the model. The oracles are folds over the op history and the implementation's outputs/snapshots only. Every history is non-trivial; distinct = distinct op lists. engine server: see C06 (SNewConn on a connected peer must change nothing: compared through the per-op state snapshot).""",
+        "assumptions": ["A-SWARM: libp2p-swarm reports connections and delivers NotifyHandler::One as documented; both dial directions create the same handler (lib.rs)"],
+    },
+    "C13": {
+        "engines": [{"name": "server", "n": {"quick": 120, "thorough": 5000}, "profiles": ["debug"], "oracle": "oracle_C13", "shard": 20},
+                    {"name": "client", "n": {"quick": 500, "thorough": 30000}, "profiles": ["debug"], "oracle": "oracle_C13", "shard": 15}],
+        "tie_lemmas": ["tie_max_wantlist_entries"],
+        "rule": """engine server: see C06, incl. wantlists of 0..1300 (quick) / 5000 (thorough) entries, full and update, and disconnects. engine client: the client half of Behaviour driven op by op (get incl. unconvertible CIDs, cancel of issued and foreign ids, connections opened/closed (via ConnectionClosed and via ClientClosingConnection), incoming client messages with presences and blocks, sending-state reports (protocol-conforming, late, from other connections), release of scripted blockstore get/put calls with hit / miss / failure in any order, virtual-clock advances around 1 s / 5 s / 30 s, ClientBehaviour::poll to Pending, get_new_blocks) over 1-3 peers x <= 3 connections x 2-4 CIDs; after every op the outputs and a full snapshot of the client state are compared with the model. The oracles are folds over the op history and the implementation's outputs/snapshots only. Every history is non-trivial; distinct = distinct op lists.""",
+        "assumptions": ["server store-lookup tasks outlive a disconnect until their calls complete (bounded by the messages received, not by connected peers): observation, see DESIGN.md"],
+    },
+    "C08": {
+        "engines": [{"name": "codec", "n": {"quick": 1500, "thorough": 60000}, "profiles": ["debug", "release"], "oracle": "oracle_C08", "known": {"F2": "known_F2"}},
+                    {"name": "prefix", "n": {"quick": 1500, "thorough": 40000}, "profiles": ["debug", "release"], "oracle": "oracle"},
+                    {"name": "incoming", "n": {"quick": 1500, "thorough": 60000}, "profiles": ["debug", "release"], "oracle": "oracle"},
+                    {"name": "client", "n": {"quick": 300, "thorough": 20000}, "profiles": ["debug", "release"], "oracle": "oracle_C03", "shard": 15},
+                    {"name": "server", "n": {"quick": 60, "thorough": 3000}, "profiles": ["debug", "release"], "oracle": "oracle_C07", "shard": 20},
+                    {"name": "handler", "n": {"quick": 400, "thorough": 20000}, "profiles": ["debug"], "oracle": "oracle_C14", "shard": 50}],
+        "rule": "engines codec (mutated / structured / exhaustive short frames, prefixes of every varint length, non-canonical encodings), prefix (all strings of <= 4/5 "
+                "bytes over a 10-byte boundary alphabet, structured prefixes), incoming (adversarial message values), client and server (behaviours under arbitrary "
+                "op sequences), handler (client handler under arbitrary scripted I/O) — in the overflow-checked (debug) AND the release profile; in release every decode of a "
+                "generated frame runs in a confined child process (address-space limit, per-input timeout) so that a hang or an allocation blow-up is an observed outcome. "
+                "The model predicts the outcome class of every input and the implementation must match; a panic / hang outside the known class F2 is a violation.",
+        "exhaustive_note": "prefix strings <= 4 (quick) / 5 (thorough) bytes over 10 byte values; frame bodies <= 3 / 4 bytes over 14 byte values",
+        "assumptions": ["32 <= S <= 255; a hasher registered for code 0x12 returns sha2-256 multihashes (sha_respecting)",
+                        "partial: panics inside third-party code that is not modelled (yamux, multistream-select, libp2p-swarm), unsafe code and allocation failure are outside the models",
+                        "known finding F2 (class codec_overrun) is excluded and reported as KNOWN-FINDING"],
+    },
 }
 NOT_CLAIMED = {}
